@@ -23,6 +23,7 @@ TEXT_LINES = [
     '', '   indented', 'trailing   ', 'a{2}', "it's", '"""triple"""', "'''triple'''", 'Jan 5, 2021 was a day',
     '12:30:45 time', '2020-01-15 10:11:12', '5 feb 2021', '$HOME/x', 'a\\', 'line with # hash', '--flag=value',
     '12 Sept 2019', 'Sept 3, 2021 14:05:09', 'July 4, 2020 was hot', 'on 1 sept 2021', '30 June 2022 09:08:07', 'Mar 5 2020',
+    '\u00c5ngstr\u00f6m 5 \u03a9', 'na\u00efve r\u00e9sum\u00e9',
 ]
 
 FILE_NAMES = ['out.txt', 'data.bin', 'a b2', 'a-b', 'a_b', 'stdout', 'stderr', 'exit_code', 'report-v1.txt',
@@ -87,6 +88,10 @@ def write_command(d, beh):
         with open(os.path.join(pay, 'f%d' % i), 'wb') as f:
             f.write(data)
         target = os.path.join(d + '_out', nm) if nm in beh.get('sibling', ()) else os.path.join(d, 'outdir', nm)
+        if nm in beh.get('tmp', ()):
+            # written under $TMPDIR (gentest points it at a directory of its own and tracks what appears there)
+            lines.append('cp %s "$TMPDIR"/%s' % (sh_quote(os.path.join(pay, 'f%d' % i)), sh_quote(nm)))
+            continue
         lines.append('cp %s %s' % (sh_quote(os.path.join(pay, 'f%d' % i)), sh_quote(target)))
         if nm in beh.get('both', ()):
             # the same base name is also written in the main output directory (with other content)
@@ -98,11 +103,16 @@ def write_command(d, beh):
         f.write('\n'.join(lines) + '\n')
 
 
+def tmp_for(d):
+    """the temporary directory of one sandbox: beside it, not inside it (as /tmp is not inside a working directory)"""
+    return os.path.join(os.path.dirname(d), '.tmp-' + os.path.basename(d))
+
+
 def env_for(d):
-    env = dict(os.environ, PYTHONPATH=REPO, PYTHONHASHSEED='0', PYTHONDONTWRITEBYTECODE='1', TMPDIR=os.path.join(d, '.tmp'),
-               TDDA_FAIL_DIR=os.path.join(d, '.tmp'), LC_ALL='C.UTF-8', LANG='C.UTF-8')
+    env = dict(os.environ, PYTHONPATH=REPO, PYTHONHASHSEED='0', PYTHONDONTWRITEBYTECODE='1', TMPDIR=tmp_for(d),
+               TDDA_FAIL_DIR=tmp_for(d), LC_ALL='C.UTF-8', LANG='C.UTF-8')
     env.pop('TMPDIR_SET_BY_GENTEST', None)
-    os.makedirs(os.path.join(d, '.tmp'), exist_ok=True)
+    os.makedirs(tmp_for(d), exist_ok=True)
     return env
 
 
@@ -191,7 +201,15 @@ def mutate_behaviour(rng, beh, kind):
     """the command later behaves differently in exactly one aspect"""
     new = json.loads(json.dumps({k: v for k, v in beh.items() if k != 'files'}))
     new['files'] = dict(beh['files'])
-    if kind == 'stdout':
+    import unicodedata
+    respell = lambda t: unicodedata.normalize('NFD', t)       # another spelling of the same characters: other text
+    if kind == 'stdout' and rng.random() < 0.35 and any(respell(l) != l for l in new['out']):
+        i = rng.choice([j for j, l in enumerate(new['out']) if respell(l) != l])
+        new['out'][i] = respell(new['out'][i])
+    elif kind == 'stderr' and rng.random() < 0.35 and any(respell(l) != l for l in new['err']):
+        i = rng.choice([j for j, l in enumerate(new['err']) if respell(l) != l])
+        new['err'][i] = respell(new['err'][i])
+    elif kind == 'stdout':
         if new['out'] and rng.random() < 0.7:
             i = rng.randrange(len(new['out']))
             new['out'][i] = new['out'][i] + ' CHANGED'
@@ -204,6 +222,14 @@ def mutate_behaviour(rng, beh, kind):
     elif kind.startswith('file:'):
         nm = kind[5:]
         text, data = new['files'][nm]
+        if text and rng.random() < 0.35:
+            try:
+                t0 = data.decode('utf-8')
+                if respell(t0) != t0:
+                    new['files'][nm] = (text, respell(t0).encode('utf-8'))
+                    return new
+            except UnicodeDecodeError:
+                pass
         new['files'][nm] = (text, (data + (b'CHANGED\n' if text else b'\x01')) if rng.random() < 0.6 or not data
                             else (bytes([data[0] ^ 1]) + data[1:] if not text else b'X' + data))
     elif kind.startswith('missing:'):
